@@ -152,12 +152,15 @@ REGISTRY = {
             "level": "PieceStore.tla is model-checked exhaustively (all interleavings of 2-4 operations over every initial condition); "
                      "every edge of the 2-thread state graph, simulated 4-thread behaviours and random gate schedules are executed on the real "
                      "piece.Pieces, every byte ReadAt returns after every step is compared with the ground truth, and the logs are validated "
-                     "by TLC against the specification with the C01 invariants evaluated on each observed state.",
+                     "by TLC against the specification with the C01 invariants evaluated on each observed state. The upload path is covered by "
+                     "Upload.tla behaviours executed on the real upload handlers with every Piece payload compared with the verified content.",
             "note": _PS_NOTE},
     "C03": {"run": p_piecestore.run, "design": "DESIGN.md section 3 C03",
-            "technique": "TLC exhaustive model checking of PieceStore.tla + gated-goroutine replay of TLC behaviours on tor/piece + TLC trace validation of the recorded logs",
+            "technique": "TLC exhaustive model checking of PieceStore.tla and Expire.tla + gated-goroutine replay of TLC behaviours on tor/piece and tor.Expire + TLC trace validation of the recorded logs",
             "level": "Same machinery as C01; the observables are alloc.Bytes() against the buffers actually held after every step, "
                      "Count(), which pieces an eviction pass drops and reports (LRU order from the specification), nothing held after "
-                     "Del() returned, process survival (worker sub-processes).",
+                     "Del() returned, process survival (worker sub-processes). Global eviction: Expire.tla (fair shares, non-atomic pass, "
+                     "evictions running in their own goroutines) is model-checked; every short schedule on which the shipped code crashed and simulated "
+                     "behaviours are executed on tor.Expire with running torrents, the pass and its evictions gated at yield points.",
             "note": _PS_NOTE},
 }
